@@ -85,8 +85,11 @@ class SimulatesSamples(work.Sampler, metaclass=abc.ABCMeta):
         for param_resolver in study.to_resolvers(params):
             records = {}
             if repetitions == 0:
-                for _, op, _ in program.findall_operations_with_gate_type(ops.MeasurementGate):
-                    records[protocols.measurement_key_name(op)] = np.empty([0, 1, 1])
+                # No repetitions, but the same keys, instance counts and widths as any other run.
+                for key, (num_instances, qid_shape) in self._get_measurement_shapes(
+                    program
+                ).items():
+                    records[key] = np.empty([0, num_instances, len(qid_shape)], dtype=np.uint8)
             else:
                 records = self._run(
                     circuit=program, param_resolver=param_resolver, repetitions=repetitions
